@@ -88,7 +88,7 @@ checks = {
     },
     "C08": {
         "verus": ["C08."],
-        "kani": [gw_rotate_entry] + [dict(gw_approve[1], also=["C01.approve_only_with_valid_proof", "C01.approve_digest"])] + [k(GW, C + "c01_validate_proof_entry", "AxelarGateway::validate_proof", also=["C01.entry"])],
+        "kani": [gw_rotate_entry] + [dict(gw_approve[1], also=["C01.approve_only_with_valid_proof", "C01.approve_digest", "C01.approve_err_is_proof_err"])] + [k(GW, C + "c01_validate_proof_entry", "AxelarGateway::validate_proof", also=["C01.entry"])],
     },
     "C09": {
         "kani": [gw_update_ts, k(GW, A + "c03_rotate_signers", "auth::rotate_signers", also=["C03.delay_flag_forwarded"]), gw_rotate_entry],
@@ -125,7 +125,7 @@ upgrades = [
 ]
 checks["C12"] = {"kani": token_all}
 checks["C14"] = {"kani": [dict(h, also=["C06.collect", "C06.refund", "C07.pay_gas", "C07.add_gas"]) for h in gas_all]}
-checks["C17"] = {"scans": ["c17_writers"], "kani": ops_all}
+checks["C17"] = {"scans": ["c17_writers"], "kani": [dict(h, also=["C07.execute_needs_operator_auth", "C06.add_operator", "C06.remove_operator"]) for h in ops_all]}
 checks["C15"] = {"kani": upgrades}
 checks["C16"] = {"kani": [k(GW, "executable::verif::c16_default_validate_message", "AxelarExecutableInterface::validate_message (default)"), k(EX, T + "c16_example_execute", "Example::execute"),
                           k(GW, C + "c02_validate_message", "AxelarGateway::validate_message (the consumed approval: exactly once)", also=["C02.consume", "C02.refused"]),
@@ -137,7 +137,11 @@ checks["C06"] = {"kani": [
     ops("c06_operators_transfer_ownership", "transfer_ownership"), ops("c17_add_operator", "add_operator"), ops("c17_remove_operator", "remove_operator"),
 ] + token_admin + [dict(h, also=["C15.upgrade_needs_owner", "C15.migrate_needs_owner"]) for h in upgrades[:-1]]}
 checks["C07"] = {"kani": [
-    tok("c12_transfer", "transfer"), tok("c12_approve", "approve"), tok("c12_transfer_from", "transfer_from"), tok("c12_burn", "burn"), tok("c12_burn_from", "burn_from"), tok("c12_mint_from", "mint_from"),
+    # a negative amount would debit the counterparty without its authorisation, so the sign checks belong here too
+    tok("c12_transfer", "transfer", also=["C12.transfer_rejects_negative"]), tok("c12_approve", "approve", also=["C12.approve_rejects_negative"]),
+    tok("c12_transfer_from", "transfer_from", also=["C12.transfer_from_rejects_negative", "C12.transfer_from_needs_live_allowance", "C12.transfer_from_moves"]),
+    tok("c12_burn", "burn", also=["C12.burn_needs_balance"]), tok("c12_burn_from", "burn_from", also=["C12.burn_from_needs", "C12.burn_from_removes"]),
+    tok("c12_mint_from", "mint_from", also=["C12.mint_rejects_negative", "C12.only_current_minters_mint"]), tok("c12_owner_mint", "mint", also=["C12.owner_mint_adds_exact_amount", "C06.owner_mint_needs_owner"]),
     gas("c14_pay_gas", "pay_gas"), gas("c14_add_gas", "add_gas"),
     ops("c17_execute", "execute"),
     k(GW, C + "c13_call_contract", "AxelarGateway::call_contract", also=["C13.sender_authorised", "C13.auth_before"]), k(GW, C + "c02_validate_message", "AxelarGateway::validate_message", also=["C02.consumer_authorised", "C02.auth_before_write"]),
@@ -153,7 +157,10 @@ its_c04 = [
     its("c04_execute_message_deploy", "execute_message (deploy arm) / deploy_interchain_token_contract / set_token_id_config"),
 ]
 codec_amount = k(ITS, "abi::verif::c10_to_i128_full_domain", "abi::to_i128 (assumption of the decode contract used here)", also=["C10.amount"])
-checks["C04"] = {"kani": its_c04 + [codec_amount, k(GW, "executable::verif::c16_default_validate_message", "AxelarExecutableInterface::validate_message (default)", also=["C16.default"]),
+# "takes effect exactly once / unexecuted approval" rests on the gateway's C02 contracts (consume once; an executed id is never re-approved)
+gw_once = [k(GW, C + "c02_validate_message", "AxelarGateway::validate_message (consumed exactly once)", also=["C02.consume", "C02.refused"]),
+           dict(gw_approve[1], also=["C02.approve_step"]), dict(gw_approve[2], also=["C02.approve_step"])]
+checks["C04"] = {"kani": its_c04 + gw_once + [codec_amount, k(GW, "executable::verif::c16_default_validate_message", "AxelarExecutableInterface::validate_message (default)", also=["C16.default"]),
                           its("c06_its_constructor_and_views", "__constructor / views", also=["C04.hub_chain_name_constant"])]}
 checks["C05"] = {"kani": [
     its("c05_pay_gas_and_call_contract", "pay_gas_and_call_contract"), its("c05_interchain_transfer", "interchain_transfer / token_handler::take_token"),
@@ -185,7 +192,7 @@ checks["C07"]["kani"] += [its("c05_interchain_transfer", "interchain_transfer"),
 
 
 AB = "abi::verif::"
-checks["C10"] = {"scans": ["c10_strict_flag"], "kani": [
+checks["C10"] = {"scans": ["c10_strict_flag"], "codec_differential": True, "kani": [
     k(ITS, AB + "c10_to_i128_full_domain", "abi::to_i128"),
     k(ITS, AB + "c10_message_type_tags", "impl From<MessageType> for U256"),
     k(ITS, AB + "c10_get_message_type_head", "abi::get_message_type (32-byte head, full domain)"),
